@@ -107,10 +107,10 @@ Theorem raft_untrack_handoff p nd :
 Proof. exact (untrack_handoff_l p nd). Qed.
 Print Assumptions raft_untrack_handoff.
 
-(* OfflineState is the replay of the prefix the newest snapshot is labelled with *)
+(* OfflineState is the replay of the prefix the newest snapshot of the store (the highest label) is labelled with *)
 Theorem raft_offline_is_snapshot_partial k es n nd :
   clean es -> run_ok ev_atomic (init k) es = true -> nth_error (nodes (final k es)) n = Some nd ->
-  offline nd = match rev (snaps nd) with [] => [] | s :: _ => replay (firstn (fst s) (log (final k es))) end.
+  offline nd = match newest (snaps nd) with None => [] | Some s => replay (firstn (fst s) (log (final k es))) end.
 Proof. exact (offline_l k es n nd). Qed.
 Print Assumptions raft_offline_is_snapshot_partial.
 
@@ -319,14 +319,15 @@ Proof. repeat split; vm_compute; reflexivity. Qed.
    around CommitOp. In the model: `shutdown n` = the final snapshot requested and written with nothing committed in between.
    For every schedule with atomic snapshots followed by a shutdown of n: an operation that was acknowledged at n - in the log at a
    position n has applied (raft_ack_visible_on_committer) - is what OfflineState of n's folder holds for its cid, and what n holds
-   after it has started again from that folder (before it replays anything), unless an entry n applied later writes the cid *)
+   after it has started again from that folder (before it replays anything), unless a later entry below the label L of the newest
+   snapshot of the folder writes the cid (L = n's position, or above it when the store already held a snapshot with a higher label) *)
 Theorem raft_shutdown_loses_nothing_acknowledged k es n nd j op x :
   clean es -> run_ok ev_atomic (init k) es = true -> nth_error (nodes (final k es)) n = Some nd ->
-  nth_error (log (final k es)) j = Some op -> (j < applied nd)%nat ->
-  writes x op = true -> existsb (writes x) (slice (S j) (applied nd) (log (final k es))) = false ->
+  nth_error (log (final k es)) j = Some op -> (j < applied nd)%nat -> writes x op = true ->
   let cl' := run (final k es) (shutdown n) in
-  sget x (offline (getn n cl')) = effect op /\
-  sget x (st (getn n (run cl' (from_disk n (length (snaps nd)))))) = effect op.
+  exists L kk, (applied nd <= L)%nat /\
+    (existsb (writes x) (slice (S j) L (log (final k es))) = false ->
+     sget x (offline (getn n cl')) = effect op /\ sget x (st (getn n (run cl' (from_disk n kk)))) = effect op).
 Proof. exact (shutdown_loses_nothing_l k es n nd j op x). Qed.
 Print Assumptions raft_shutdown_loses_nothing_acknowledged.
 
